@@ -122,6 +122,7 @@ class Rec:
     def __init__(self):
         self.events = []
         self.tid = 0
+        self.last_written = None
 
     def add(self, ev):
         self.tid += 1
@@ -145,7 +146,9 @@ def rec_to_binary(rec, f, off, key, **extra):
         ev = {"op": "bf3.to_binary", "comps": pj, "off": off, "key": B(key), "out": [], "exc": exc_info(e)}
         ev.update(extra)
         return rec.add(ev), b""
-    ev = {"op": "bf3.to_binary", "comps": proj_file(f)["comps"], "off": off, "key": B(key), "out": B(out)}
+    # the content is projected BEFORE the call: the layout is a function of what the caller handed in (a writer that edits the
+    # object while serialising it must not be judged against its own edit)
+    ev = {"op": "bf3.to_binary", "comps": pj, "off": off, "key": B(key), "out": B(out)}
     ev.update(extra)
     return rec.add(ev), out
 
@@ -171,7 +174,7 @@ def rec_write(rec, f, key, disk, scratch):
         rec.add({"op": "bf3.write", "comments": pj["comments"], "comps": pj["comps"], "key": B(key), "text": [], "disk": 1 if disk else 0,
                  "exc": exc_info(e)})
         return ""                                         # later reads of the empty text are rejected by code and specification alike
-    pj = proj_file(f)
+    rec.last_written = pj                                  # (projection taken before the call)
     rec.add({"op": "bf3.write", "comments": pj["comments"], "comps": pj["comps"], "key": B(key),
              "text": chars(text), "disk": 1 if disk else 0})
     return text
